@@ -180,10 +180,10 @@ pub fn props_of(case: &Value) -> Vec<&'static str> {
     let slice = case["slice"].as_str().unwrap_or("");
     if slice == "time" { return vec!["X01", "C05"]; }
     let mut v = vec![owner_of(slice), "C05", "C11", "C10"];
-    if slice == "alias" { v.push("C08"); }
+    if slice == "alias" || slice == "deep" { v.push("C08"); }
     if slice != "print" { v.push("C04"); }
     if slice != "deep" { v.push("C19"); v.push("C21"); }
-    if slice == "lists" { v.push("C16"); }
+    if slice == "lists" { v.push("C16"); v.push("C07"); }
     v
 }
 
@@ -229,6 +229,11 @@ pub fn replay(case: &Value) -> Vec<Obs> {
     let out_ok = (0..expect.len()).all(|i| i < run.segs.len() && run.segs[i].out == exp_at(i).out);
     let detail = format!("{} :: reference {} / engine {}{}", what, show_segs(&expect), show_segs(&run.segs),
                          run.panic.as_ref().map(|p| format!(" PANIC {}", p)).unwrap_or_default());
+    // C07: head / goal unification with a list pattern on either side (the list programs: open and closed lists in heads,
+    // open and closed lists in goals): the answers are those of the reference whichever side the pattern is on
+    if slice == "lists" {
+        if first_part_ok { obs.push(Obs::ok("C07", "head-goal-list-patterns")); } else { obs.push(Obs::bad("C07", "head-goal-list-patterns", format!("{} :: reference {} / engine {}", what, show_segs(&expect), show_segs(&run.segs)))); }
+    }
     // C16: append() as a goal of a clause body (its list arguments were renamed with the clause): same verdict as the answers
     if slice == "lists" { if let Tm::Cx(f, _) = &qt { if ["apb", "nest", "nest2"].contains(&f.as_str()) {
         if first_part_ok { obs.push(Obs::ok("C16", "append-in-clause-body")); } else { obs.push(Obs::bad("C16", "append-in-clause-body", format!("{} :: reference {} / engine {}", what, show_segs(&expect), show_segs(&run.segs)))); }
@@ -386,7 +391,7 @@ pub fn replay(case: &Value) -> Vec<Obs> {
         capture::take();
         match bad { None => obs.push(Obs::ok("C10", "continued-after-stop_query")), Some(d) => obs.push(Obs::bad("C10", "continued-after-stop_query", d)) }
     }
-    if slice == "alias" {
+    if slice == "alias" || slice == "deep" {
         if run.cycle { obs.push(Obs::bad("C08", "cycle", detail.clone())); } else { obs.push(Obs::ok("C08", "acyclic")); }
     }
 
